@@ -79,15 +79,19 @@ def plan(tier, seed):
         {"gen": "q_negauth", "kinds": ["rsa", "p256"]},
         {"gen": "q_negauth", "kinds": ["p384", "ed25519", "ed448"]},
     ]
-    # (a) every byte position of every message; quick: masks 01/80/FF, thorough: every single-bit mask + FF
+    # (a) quick: every 3rd byte + every field boundary with masks 01/80/FF; every handshake-header byte and every
+    #     located length field with ALL value-decreasing masks (type byte: every other known type); all 255 masks on
+    #     the length bytes delimiting authenticated values (Finished, CertificateVerify, PSK binder); explicit
+    #     resize-with-fix-up of verify_data / signature / binder to every shorter length (and +1, +16).
+    #     thorough: every byte, 9 masks; all 255 masks on every header byte and length field.
     a = []
     nshards = 4 if quick else 10
     for s in range(nshards):  # shard-major: a budget cut-off costs depth, not configurations
         for name in A_CONFIG_NAMES:
-            a.append({"gen": "a_flip", "config": name, "seed": seed, "shard": s, "nshards": nshards, "stride": 1,
-                      "masks": [0x01, 0x80, 0xFF] if quick else ALL_MASKS})
+            a.append({"gen": "a_flip", "config": name, "seed": seed, "shard": s, "nshards": nshards, "stride": 3 if quick else 1,
+                      "masks": [0x01, 0x80, 0xFF] if quick else ALL_MASKS, "full_length_masks": not quick})
     # (c)
-    ncases, per = (6000, 100) if quick else (200000, 500)
+    ncases, per = (5000, 100) if quick else (200000, 500)
     base = seed * 1000003
     c = [{"gen": "c_matrix", "range": [base + i, base + i + per]} for i in range(0, ncases, per)]
     # (d)
@@ -96,7 +100,7 @@ def plan(tier, seed):
         for which, nsh in (("ServerHello", 1 if quick else 2), ("ClientHello", 2 if quick else 6)):
             for s in range(nsh):
                 d.append({"gen": "d_initial_flip", "version": version, "which": which, "seed": seed, "stride": 1, "shard": s, "nshards": nsh,
-                          "key": key, "masks": [0x01, 0x80, 0xFF] if quick else ALL_MASKS})
+                          "key": key, "masks": [0x01, 0x80, 0xFF] if quick else ALL_MASKS, "full_length_masks": not quick})
     # interleave so that a budget cut-off loses a bit of everything rather than all of one part
     out = list(head)
     while a or c or d:
